@@ -1,5 +1,6 @@
 import GoPlugin.Props.C12
 import GoPlugin.Generated.Facts
+import GoPlugin.Props.Hygiene
 /-
 C12 instantiated at the facts extracted from the current source (tie T-A):
 the obligation `facts_good` is re-checked on every run.
@@ -46,5 +47,12 @@ theorem holds_legit_pair_connects (w : World) (hn : w.announced.name = certName)
     (path.pluginListens = true → serves Facts.tls w path (hostAs Facts.tls w) = true ∧ talksTo Facts.tls w path (pluginAs Facts.tls w) = true) ∧
     (path.pluginListens = false → serves Facts.tls w path (pluginAs Facts.tls w) = true ∧ talksTo Facts.tls w path (hostAs Facts.tls w) = true) :=
   legit_pair_connects _ facts_good w hn hn' path
+
+theorem holds_pin_consulted_on_every_connection (k : Nat) : Hygiene.pinConsulted Facts.hygiene k = true :=
+  Props.Hygiene.pin_consulted_on_every_connection _ (by decide) k
+
+theorem holds_own_certificate_effective (rewrite : List (String × String) → List (String × String)) (inherited : List (String × String)) (val : String) :
+    Hygiene.effective (Hygiene.childEnv Facts.hygiene rewrite (inherited ++ [("PLUGIN_CLIENT_CERT", val)])) "PLUGIN_CLIENT_CERT" = some val :=
+  Props.Hygiene.own_value_effective _ (by decide) rewrite inherited "PLUGIN_CLIENT_CERT" val
 
 end GoPlugin.Instance.C12
